@@ -76,6 +76,8 @@ theorem makeBackupFor_after_dirs (o : Options) (p : Bytes) (s s1 : DState) (b : 
       s'.fs.lookup (absPath s p) = none ∧
       s'.backedUp.contains (backupName o p) = true ∧
       s'.trace = s1.trace ++ [FsOp.rename (absPath s p) (absPath s (backupName o p))] := by
+  have hnf : notFileAt s p = false :=
+    notFileAt_of_grown_file (s := s) (ensureParentDirs_shape _ hens).2.2.2 hfile
   obtain ⟨⟨fs', t, n, rfl⟩, -⟩ := ensureParentDirs_shape _ hens
   have hfile : fs'.lookup (absPath s p) = some (.file b m) := hfile
   have hdir : fs'.dirExists (parentOf (absPath s (backupName o p))) = true := hdir
@@ -88,7 +90,7 @@ theorem makeBackupFor_after_dirs (o : Options) (p : Bytes) (s s1 : DState) (b : 
                    fs := (fs'.erase (absPath s p)).set (absPath s (backupName o p)) (.file b m),
                    trace := t ++ [FsOp.rename (absPath s p) (absPath s (backupName o p))],
                    opCount := n + 1 }, ?_, ?_, ?_, ?_, ?_⟩
-  · rw [makeBackupFor_run, if_neg hnot, hens]
+  · rw [makeBackupFor_run, if_neg (by rw [hnf]; simp), if_neg hnot, hens]
     simp only []
     have e1 : ∀ q, absPath { s with backedUp := s.backedUp ++ [backupName o p], fs := fs', trace := t, opCount := n } q = absPath s q :=
       fun _ => rfl
@@ -186,6 +188,8 @@ theorem makeBackupFor_absent_after_dirs (o : Options) (p : Bytes) (s s1 : DState
     ∃ s' m, (makeBackupFor o p).run s = (.ok (), s') ∧
       s'.fs.lookup (absPath s (backupName o p)) = some (.file [] m) ∧
       s'.trace = s1.trace ++ [FsOp.creat (absPath s (backupName o p))] := by
+  have hnf : notFileAt s p = false :=
+    notFileAt_of_none (stat_none_of_grown (fs := s.fs) (ensureParentDirs_shape _ hens).2.2.2 habs)
   obtain ⟨⟨fs', t, n, rfl⟩, -⟩ := ensureParentDirs_shape _ hens
   have habs : fs'.stat (absPath s p) = none := habs
   have hnone : fs'.stat (absPath s (backupName o p)) = none := hnone
@@ -198,7 +202,7 @@ theorem makeBackupFor_absent_after_dirs (o : Options) (p : Bytes) (s s1 : DState
                    fs := fs'.set (absPath s (backupName o p)) (.file [] (0o666 - (0o666 &&& fs'.umask))),
                    trace := t ++ [FsOp.creat (absPath s (backupName o p))],
                    opCount := n + 1 }, (0o666 - (0o666 &&& fs'.umask)), ?_, ?_, rfl⟩
-  · rw [makeBackupFor_run, if_neg hnot, hens]
+  · rw [makeBackupFor_run, if_neg (by rw [hnf]; simp), if_neg hnot, hens]
     simp only []
     have e1 : ∀ q, absPath { s with backedUp := s.backedUp ++ [backupName o p], fs := fs', trace := t, opCount := n } q = absPath s q :=
       fun _ => rfl
@@ -259,7 +263,7 @@ theorem makeBackupFor_missing_replaces (o : Options) (p : Bytes) (n : Node) (s :
       unfold Fs.dirExists at hdir ⊢
       rw [Fs.lookup_erase_ne _ _ _ (parentOf_ne_self (absPath_ne_nil s (backupName_ne_nil o p)))]; exact hdir
     simp only [Fs.apply, hst, hd]; rfl
-  rw [makeBackupFor_run, if_neg hnot,
+  rw [makeBackupFor_run, if_neg (by rw [notFileAt_of_none habs]; simp), if_neg hnot,
     ensureParentDirs_run_exist (backupName o p) { s with backedUp := s.backedUp ++ [backupName o p] } (backupName_ne_nil o p) hf hdirs]
   simp only []
   have e1 : ∀ (bu : List Bytes) (n : Nat) q, absPath { s with backedUp := bu, opCount := n } q = absPath s q := fun _ _ _ => rfl
@@ -324,6 +328,26 @@ def sDirBak : DState :=
 theorem makeBackupFor_again (o : Options) (p : Bytes) (s : DState) (hin : s.backedUp.contains (backupName o p) = true) :
     (makeBackupFor o p).run s = (.ok (), s) := by
   rw [makeBackupFor_run, if_pos hin]
+  split <;> rfl
+
+/-- **only a regular file has a backup** (D106): what exists and is something else — a directory, a device: what `-o` may name — is
+    left where it is: `make_backup_for` does nothing at all (no operation, and the name is not recorded as backed up) -/
+theorem makeBackupFor_not_regular (o : Options) (p : Bytes) (s : DState) (n : Node)
+    (hst : s.fs.stat (absPath s p) = some n) (hn : ∀ b m, n ≠ .file b m) :
+    (makeBackupFor o p).run s = (.ok (), s) := by
+  have : notFileAt s p = true := by
+    unfold notFileAt
+    rw [hst]
+    cases n with
+    | file b m => exact absurd rfl (hn b m)
+    | _ => rfl
+  rw [makeBackupFor_run, if_pos this]
+
+/-- a concrete instance: `-b -o d` where `d` is a directory: it is not renamed to `d.orig` -/
+def sDirOut : DState := { fs := { nodes := [(str "d", .dir 0o755)] } }
+#guard ((makeBackupFor defaultOptions (str "d")).run sDirOut).2.trace == []
+#guard ((makeBackupFor defaultOptions (str "d")).run sDirOut).2.fs.lookup (str "d") == some (.dir 0o755)
+#guard ((makeBackupFor defaultOptions (str "d")).run sDirOut).2.backedUp == []
 
 /-! ### the backup is made right before the write — also for deferred (git) writes
 
@@ -445,7 +469,7 @@ theorem finalizeRemoval_backup_only (o : Options) (dWrites : List DeferredWrite)
     rw [run_bind] at h
     rcases hb : (makeBackupFor o p).run s with ⟨r1, s1⟩
     rw [hb] at h
-    rw [makeBackupFor_run, if_neg hnot] at hb
+    rw [makeBackupFor_run, if_neg (by rw [notFileAt_of_lookup_file hfile]; simp), if_neg hnot] at hb
     rcases hens : (ensureParentDirs (backupName o p)).run { s with backedUp := s.backedUp ++ [backupName o p] } with ⟨r0, s0⟩
     rw [hens] at hb
     obtain ⟨⟨fs0, t, n, rfl⟩, ⟨M, tM, hM⟩, -, hkeep⟩ := ensureParentDirs_shape _ hens
@@ -541,8 +565,11 @@ theorem finalizeRemoval_again (o : Options) (dWrites : List DeferredWrite) (p : 
     `[unlink bn]` when the `creat` then failed (`DriverFacts.BackupOps`); as long as the backup has not succeeded (`bk = []` or
     `bk = [unlink bn]`) nothing happens to the target.  (`make_way_for`, D101: the same when a regular file has the backup name; the
     statement is as it was.) -/
+/- CHANGED with the model change "only a regular file has a backup" (D106): "nothing happens to the target before the backup has
+   succeeded" is said of a target which is a regular file or nothing (`PlainAt s out`, new): what else `-o` may name (a directory, a
+   device) gets no backup and is written to all the same.  `hk` says so of `pre` (it does not make the target anything else). -/
 theorem writeNow_backup_first {pre : DM Unit} (o : Options) (out : Bytes) (perm : PermResult) (sb : Bool) (content : Bytes) (nm : Nat)
-    (hk : ∀ s s1 r, pre.run s = (r, s1) → s1.cwd = s.cwd ∧ s1.backedUp = s.backedUp)
+    (hk : ∀ s s1 r, pre.run s = (r, s1) → s1.cwd = s.cwd ∧ s1.backedUp = s.backedUp ∧ (PlainAt s out → PlainAt s1 out))
     (ht : TrExt (fun op => ∃ d, op = FsOp.mkdir d) pre)
     (s s' : DState) (r : Except Exn Unit)
     (h : (pre >>= fun _ => writeNow o out perm sb content nm).run s = (r, s')) :
@@ -552,21 +579,22 @@ theorem writeNow_backup_first {pre : DM Unit} (o : Options) (out : Bytes) (perm 
       (mw = [] ∨ ∃ m, mw = [FsOp.chmod (absPath s out) m]) ∧
       (post = [] ∨ ∃ rest, post = FsOp.creat (absPath s out) :: rest ∧
         ∀ op ∈ rest, (∃ b, op = FsOp.write (absPath s out) b) ∨ ∃ m, op = FsOp.chmod (absPath s out) m) ∧
-      (sb = true → s.backedUp.contains (backupName o out) = false →
+      (sb = true → PlainAt s out → s.backedUp.contains (backupName o out) = false →
         bk = [] ∨ bk = [FsOp.unlink (absPath s (backupName o out))] → mw = [] ∧ post = []) ∧
       (sb = false ∨ s.backedUp.contains (backupName o out) = true → bk = []) ∧
       (r = .ok () → post ≠ []) := by
   rw [run_bind] at h
   split at h
   · next _ s1 h1 =>
-    obtain ⟨c1, b1⟩ := hk _ _ _ h1
+    obtain ⟨c1, b1, p1⟩ := hk _ _ _ h1
     obtain ⟨D, t1, hD⟩ := ht.run h1
     obtain ⟨-, M, B, W, C, t, hM, hB, hW, hC, hfirst, hnone, hok, -⟩ := writeNow_shape _ _ _ _ _ _ h
     rw [absPath_cwd c1] at hW hC
     rw [absPath_cwd c1, absPath_cwd c1] at hB
     rw [b1, absPath_cwd c1] at hfirst
     rw [b1] at hnone
-    refine ⟨D ++ M, B, W, C, by rw [t, t1]; simp only [List.append_assoc], ?_, hB, hW, hC, hfirst, fun h => (hnone h).2, hok⟩
+    refine ⟨D ++ M, B, W, C, by rw [t, t1]; simp only [List.append_assoc], ?_, hB, hW, hC,
+      fun h1 h2 => hfirst h1 (p1 h2).notFileAt, fun h => (hnone (h.imp_right .inl)).2, hok⟩
     intro op hop
     rcases List.mem_append.1 hop with h | h
     · exact hD op h
@@ -576,7 +604,7 @@ theorem writeNow_backup_first {pre : DM Unit} (o : Options) (out : Bytes) (perm 
     cases h
     obtain ⟨D, t1, hD⟩ := ht.run h1
     exact ⟨D, [], [], [], by rw [t1]; simp, fun op hop => hD op hop, Or.inl rfl, Or.inl rfl, Or.inl rfl,
-      fun _ _ _ => ⟨rfl, rfl⟩, fun _ => rfl, fun he => (by cases he)⟩
+      fun _ _ _ _ => ⟨rfl, rfl⟩, fun _ => rfl, fun he => (by cases he)⟩
 
 /-- **`DeferredWriter::finalize` backs up before it writes**: for a deferred write with `backup = true` whose backup name has not been
     used yet, the first operation that is not a `mkdir` is the backup (`rename` of the destination to the backup name, or `creat` of an
@@ -590,13 +618,13 @@ theorem finalize_backup_first (o : Options) (w : DeferredWrite) (s s' : DState) 
       (mw = [] ∨ ∃ m, mw = [FsOp.chmod (absPath s w.dest) m]) ∧
       (post = [] ∨ ∃ rest, post = FsOp.creat (absPath s w.dest) :: rest ∧
         ∀ op ∈ rest, (∃ b, op = FsOp.write (absPath s w.dest) b) ∨ ∃ m, op = FsOp.chmod (absPath s w.dest) m) ∧
-      (w.backup = true → s.backedUp.contains (backupName o w.dest) = false →
+      (w.backup = true → PlainAt s w.dest → s.backedUp.contains (backupName o w.dest) = false →
         bk = [] ∨ bk = [FsOp.unlink (absPath s (backupName o w.dest))] → mw = [] ∧ post = []) ∧
       (w.backup = false ∨ s.backedUp.contains (backupName o w.dest) = true → bk = []) ∧
       (r = .ok () → post ≠ []) :=
   writeNow_backup_first o w.dest w.perm w.backup w.content w.newMode
     (fun _ _ _ h1 => ⟨ensureParentDirs_keeps (·.cwd) (fun _ _ _ _ => rfl) _ h1,
-      ensureParentDirs_keeps (·.backedUp) (fun _ _ _ _ => rfl) _ h1⟩)
+      ensureParentDirs_keeps (·.backedUp) (fun _ _ _ _ => rfl) _ h1, PlainAt.ensureParentDirs h1⟩)
     (ensureParentDirs_trExt (fun d => ⟨d, rfl⟩) w.dest) s s' r h
 
 /-- the same for the immediate write of `write_patched_result_to_file` (anything but a git patch, or a git deletion): the backup
@@ -611,7 +639,7 @@ theorem direct_write_backup_first (o : Options) (p : Patch) (out : Bytes) (perm 
       (mw = [] ∨ ∃ m, mw = [FsOp.chmod (absPath s out) m]) ∧
       (post = [] ∨ ∃ rest, post = FsOp.creat (absPath s out) :: rest ∧
         ∀ op ∈ rest, (∃ b, op = FsOp.write (absPath s out) b) ∨ ∃ m, op = FsOp.chmod (absPath s out) m) ∧
-      (sb = true → s.backedUp.contains (backupName o out) = false →
+      (sb = true → PlainAt s out → s.backedUp.contains (backupName o out) = false →
         bk = [] ∨ bk = [FsOp.unlink (absPath s (backupName o out))] → mw = [] ∧ post = []) ∧
       (sb = false ∨ s.backedUp.contains (backupName o out) = true → bk = []) ∧
       (r = .ok () → post ≠ []) := by
@@ -620,8 +648,8 @@ theorem direct_write_backup_first (o : Options) (p : Patch) (out : Bytes) (perm 
   · intro s s1 r h1
     split at h1
     · exact ⟨ensureParentDirs_keeps (·.cwd) (fun _ _ _ _ => rfl) _ h1,
-        ensureParentDirs_keeps (·.backedUp) (fun _ _ _ _ => rfl) _ h1⟩
-    · cases h1; exact ⟨rfl, rfl⟩
+        ensureParentDirs_keeps (·.backedUp) (fun _ _ _ _ => rfl) _ h1, PlainAt.ensureParentDirs h1⟩
+    · cases h1; exact ⟨rfl, rfl, fun h => h⟩
   · have := ensureParentDirs_trExt (A := fun op => ∃ d, op = FsOp.mkdir d) (fun d => ⟨d, rfl⟩)
     spec_walk (good_ext _)
 
@@ -637,6 +665,7 @@ end PatchModel.C18
 #print axioms PatchModel.C18.makeBackupFor_missing_replaces_link
 #print axioms PatchModel.C18.makeBackupFor_missing_replaces_file
 #print axioms PatchModel.C18.makeBackupFor_again
+#print axioms PatchModel.C18.makeBackupFor_not_regular
 #print axioms PatchModel.C18.finalizeDeferred_writes
 #print axioms PatchModel.C18.finalizeRemoval_eq
 #print axioms PatchModel.C18.finalizeRemoval_skip
